@@ -117,7 +117,7 @@ def ip8 (ip : UInt32) : String := toHexW ip.toNat 8
 
 def showLeases (s : Srv) : String :=
   let ls := sortStrings ((AMap.vals s.leases).map fun l =>
-    s!"{bytesToHex l.mac}:{ip8 l.ip}:{l.exp}:{hexOrDash l.cidBytes}")
+    s!"{bytesToHex l.mac}:{ip8 l.ip}:{l.exp}:{hexOrDash l.cidBytes}:{l.expMs}")
   let cs := sortStrings (s.byCid.map fun (k, l) => s!"{bytesToHex k}:{bytesToHex l.mac}:{ip8 l.ip}:{l.exp}")
   let j (x : List String) := if x.isEmpty then "-" else ",".intercalate x
   s!"L={j ls} C={j cs}"
@@ -183,14 +183,19 @@ def c03RunMonitors (st : St) (f : Frame) (clkNs : Nat) (impl : String) : List (S
           if mapName == "vlan" then [] else
           let os := owners st.impl mapName key
           if os.isEmpty then [("answers-after-end", "none", s!"entry-without-lease:{mapName}:{bytesToHex key}")]
-          else if os.all (fun l => decide (st.impl.now > l.exp)) then
+          else if os.all (fun l => st.impl.after l) then
+            -- userspace regards every owning lease as expired (`now.After(ExpiresAt)`, millisecond resolution).
             -- D11 only if the program's own test could not see the expiry: its clock (another time scale than
-            -- the slow path's) has not passed the entry's lease_expiry; a transmission although `now > lease_expiry`
-            -- on the program's clock is a different defect
+            -- the slow path's) has not passed the entry's lease_expiry; KF-expiry-subsecond only if the clocks agree
+            -- and the lease expired within the current second (the cache holds whole seconds, the test is `>`);
+            -- a transmission although `now > lease_expiry` on the program's clock is a different defect
             let m := st.impl.maps
             let entryExp := (AMap.lookup (if mapName == "cid" then m.cid else m.sub) key).map fun v => (rd64 v 13).toNat
             let clkS := clkNs / 1000000000
-            let clause := if clkS != st.impl.now && entryExp.any (fun e => decide (clkS ≤ e)) then "D11" else "none"
+            let clause :=
+              if clkS != st.impl.now && entryExp.any (fun e => decide (clkS ≤ e)) then "D11"
+              else if clkS == st.impl.now && entryExp == some st.impl.now then "KF-expiry-subsecond"
+              else "none"
             [("answers-after-end", clause, s!"lease-expired:{mapName}:{bytesToHex key}")]
           else []
         | none => []
@@ -216,6 +221,8 @@ def requestedAddr (reqBootp : List UInt8) : List UInt8 :=
       MAC (it keys on option 82 whatever giaddr and chaddr are; userspace looks a client up by MAC first and by
       circuit-id only for relayed requests of unknown MACs) AND the client address is the only difference (or
       userspace NAKs the request);
+    * `KF-dns-more-than-two`: userspace's option 6 lists more than two servers, the fast path's the first two of
+      them, nothing else differs (after the D10 reversal);
     * `KF-srvcfg-unset`: server_config.server_ip is 0 (never configured) and the only difference, after the D10
       reversal, is the server identifier (the program falls back to the pool gateway). -/
 def compareReplies (reqBootp fb : List UInt8) (cachedIp : Option UInt32) (cfgZero foreignCid misread : Bool)
@@ -225,11 +232,18 @@ def compareReplies (reqBootp fb : List UInt8) (cachedIp : Option UInt32) (cfgZer
   | some sb =>
     let fv := viewOf fb
     let sv := viewOf sb
+    -- with server_config never written (KF-srvcfg-unset: `server_ip` is 0 in the cache the program ran on) the server
+    -- identifier is the pool gateway: that difference is explained, whatever else differs is judged without it
+    -- (the mechanism, checked: the fast path's option 54 equals its own option 3, the gateway)
+    let cfgHit := cfgZero && fv.serverId != sv.rev.serverId && fv.serverId == fv.router
+    let fv := if cfgHit then { fv with serverId := sv.rev.serverId } else fv
     let svr := sv.rev
     -- a DHCPNAK carries the server identifier only: nothing else can be compared
     let nakOk := sv.msgType == some [6] && fv.serverId == svr.serverId
     if fv == sv then []
-    else if fv == svr then [("reply-differs", "D10", "addresses-byte-reversed")]
+    else if fv == svr then
+      if cfgHit then [("reply-differs", "KF-srvcfg-unset", "server-id-is-the-gateway")]
+      else [("reply-differs", "D10", "addresses-byte-reversed")]
     -- KF-opt53-fixed explains a different message type and nothing else
     else if misread && (nakOk || { fv with msgType := none } == { svr with msgType := none }) then
       [("reply-differs", "KF-opt53-fixed", "message-type-read-at-a-fixed-offset")]
@@ -239,8 +253,9 @@ def compareReplies (reqBootp fb : List UInt8) (cachedIp : Option UInt32) (cfgZer
     else if nakOk && fv.msgType == some [5] &&
         cachedIp.map (fun ip => CacheEnc.ipWire ip) != some (requestedAddr reqBootp) then
       [("reply-differs", "KF-fastpath-reqaddr", "ack-for-an-address-userspace-naks")]
-    else if cfgZero && { fv with serverId := none } == { svr with serverId := none } then
-      [("reply-differs", "KF-srvcfg-unset", "server-id-is-the-gateway")]
+    -- KF-dns-more-than-two: the pool has more than two DNS servers, struct ip_pool holds two
+    else if sv.dns.length > 8 && fv.dns == svr.dns.take 8 && { fv with dns := [] } == { svr with dns := [] } then
+      [("reply-differs", "KF-dns-more-than-two", "option-6-carries-the-first-two-servers-only")]
     else
       let d := if fv.msgType != sv.msgType then "message-type"
         else if fv.leaseTime != sv.leaseTime then "lease-time"
@@ -281,12 +296,12 @@ def parseLeases (l : String) : AMap Bytes Lease :=
   if l == "-" then [] else
   (l.splitOn ",").filterMap fun tok =>
     match tok.splitOn ":" with
-    | [mac, ip, exp, cid] =>
-      match parseHexBytes mac, parseHex ip, exp.toNat? with
-      | some mac, some ip, some exp =>
+    | [mac, ip, exp, cid, ms] =>
+      match parseHexBytes mac, parseHex ip, exp.toNat?, ms.toNat? with
+      | some mac, some ip, some exp, some ms =>
         let c : Option Bytes := if cid == "-" then none else parseHexBytes cid
-        some (mac, { mac := mac, ip := UInt32.ofNat ip, poolId := 0, exp := exp, cid := c })
-      | _, _, _ => none
+        some (mac, { mac := mac, ip := UInt32.ofNat ip, poolId := 0, exp := exp, expMs := ms, cid := c })
+      | _, _, _, _ => none
     | _ => none
 
 /-- fold one trace line's observation into the observed state -/
@@ -300,6 +315,7 @@ def observe (o : Srv) (toks : List String) (impl : String) : Srv :=
     | none => o
   match toks with
   | ["tick", n] => { o with now := o.now + n.toNat?.getD 0 }
+  | ["tickms", n] => o.step (.tickMs (n.toNat?.getD 0))
   | _ => o
 
 /-! ### srv ops -/
@@ -360,7 +376,10 @@ def stepSrv (st : St) (toks : List String) (impl : String) : St × LineResult :=
   match toks with
   | ["setcfg", mac, ip, idx] =>
     match parseHexBytes mac, parseIp ip, idx.toNat? with
-    | some mac, some ip, some idx => fin (st.srv.step (.setCfg mac ip (UInt32.ofNat idx))) ""
+    | some mac, some ip, some idx =>
+      -- `Server.Start` passes the server's own address (`Op.setCfg`); any other address is a bare Loader call
+      if ip == st.srv.serverIp then fin (st.srv.step (.setCfg mac (UInt32.ofNat idx))) ""
+      else fin { st.srv with maps := setServerConfig st.srv.maps mac ip (UInt32.ofNat idx) } ""
     | _, _, _ => (st, { modelObs := "badop" })
   | ["addpool", id, net, gw, dns, lease, vlan, cls] =>
     match parsePool id net gw dns lease vlan cls with
@@ -402,12 +421,14 @@ def stepSrv (st : St) (toks : List String) (impl : String) : St × LineResult :=
           | some b, some [ty] =>
             if ty == 2 || ty == 5 then
               let yi := UInt32.ofNat ((bytesAt b 16 4).foldl (fun acc x => acc * 256 + x.toNat) 0)
-              let poolId? : Option UInt32 :=
-                if ty == 5 then (AMap.lookup srv'.leases pq.mac).map (·.poolId)
+              let pool? : Option PoolCfg :=
+                if ty == 5 then ((AMap.lookup srv'.leases pq.mac).map (·.poolId)).bind (AMap.lookup st.srv.pools)
                 else match st.srv.existing pq.mac pq.relayed pq.cid with
-                  | some l => if st.srv.now < l.exp then some l.poolId else st.srv.defaultPool
-                  | none => st.srv.defaultPool
-              match poolId?.bind (AMap.lookup st.srv.pools) with
+                  -- `time.Now().Before(existingLease.ExpiresAt)`
+                  | some l => if !(st.srv.after l) && !(st.srv.now == l.exp && st.srv.subMs == l.expMs)
+                              then AMap.lookup st.srv.pools l.poolId else st.srv.classify
+                  | none => st.srv.classify
+              match pool? with
               | some P => ":".intercalate ((slowView ty yi st.srv.serverIp P).fields.map showF)
               | none => "nopool"
             else "-"
@@ -415,6 +436,22 @@ def stepSrv (st : St) (toks : List String) (impl : String) : St × LineResult :=
         ({ st with srv := srv', lastTx := none },
          { modelObs := s!"q={q} r={r} sv={sv} {showLeases srv'} d={delta old srv'.maps}", viols := viols })
     | _, _, _ => (st, { modelObs := "badop" })
+  | ["rmpool", id] =>
+    match id.toNat? with
+    | some id =>
+      if (AMap.lookup st.srv.pools (UInt32.ofNat id)).isNone then (st, { modelObs := "err d=-" })
+      else fin (st.srv.step (.removePool (UInt32.ofNat id))) "ok "
+    | none => (st, { modelObs := "badop" })
+  | ["setdefault", id] =>
+    match id.toNat? with
+    | some id =>
+      if (AMap.lookup st.srv.pools (UInt32.ofNat id)).isNone then (st, { modelObs := "err" })
+      else ({ st with srv := st.srv.step (.setDefault (UInt32.ofNat id)) }, { modelObs := "ok" })
+    | none => (st, { modelObs := "badop" })
+  | ["tickms", n] =>
+    match n.toNat? with
+    | some n => ({ st with srv := st.srv.step (.tickMs n) }, { modelObs := "ok" })
+    | none => (st, { modelObs := "badop" })
   | ["cleanup"] =>
     let srv' := st.srv.step .cleanup
     ({ st with srv := srv' }, { modelObs := s!"{showLeases srv'} d={delta old srv'.maps}" })
